@@ -12,7 +12,7 @@ known = json.load(open(os.path.join(VERIF, 'known_findings.json')))
 kset = set((k['property'], k['rule'], k['key']) for k in known['findings'])
 for patch in sys.argv[1:]:
     m = {'patch': os.path.abspath(patch)}
-    r = selfcheck.run_mutant(m, '/repo', sorted(props.PROPS))
+    r = selfcheck.run_mutant(m, '/repo', sorted(props.PROPS), want=('violation', 'undecided') if os.environ.get('UNDECIDED') else ('violation',))
     name = patch
     if r['status'] != 'ran':
         print('%-40s %s %s' % (name, r['status'], r.get('why', '')[:300]))
@@ -24,6 +24,10 @@ for patch in sys.argv[1:]:
             hits[p] = v2
     print('%-40s %s' % (name, ', '.join('%s[%s]' % (p, ','.join(sorted(set(x['rule'] for x in v)))) for p, v in sorted(hits.items())) or 'NOT DETECTED'))
     if os.environ.get('VERBOSE'):
+        seen = set()
         for p, v in sorted(hits.items()):
             for x in v:
-                print('      ', p, x['rule'], x['key'])
+                if (x['rule'], x['key']) in seen:
+                    continue
+                seen.add((x['rule'], x['key']))
+                print('      ', p, x.get('verdict'), x['rule'], x['key'])
